@@ -1,4 +1,5 @@
 import Rivaas.Lemmas.RadixText
+import Rivaas.Lemmas.RadixPrio
 /-
 C01 assembled above the tree walk: `getRoute` (root, `staticPaths`, descent) on the tree the model builds
 from a list of routes, against the reference choice.
@@ -343,11 +344,18 @@ theorem notInTree (r : Route) (h : inTree r = false) : isStaticPat r.pat = true 
   simp only [inTree, Bool.or_eq_false_iff, Bool.not_eq_false', List.isEmpty_eq_false_iff] at h
   exact h
 
+theorem okOf_match (w : Option (Leaf × Ctx)) (ctx : Ctx) :
+    okOf (match w with
+      | some (lf, c) => (some lf, c)
+      | none => (none, ctx)) = w := by
+  cases w with
+  | none => rfl
+  | some v => obtain ⟨lf, c⟩ := v; rfl
+
 theorem getRoute_ref (sat : Nat → Bytes → Bool) (R : List Route) (hR : NormalR R) (m : Bytes) (path : Bytes)
     (hp : path.head? = some '/')
-    (hS : dShadow1 R m (cutAny path) = false)
-    (hC : dCfall1 sat R m (cutAny path) = false) :
-    okOf (getRouteGen false false sat (treeFor R m) path Ctx.fresh) =
+    (hOw : dReplaced1 sat R m (cutAny path) = false) :
+    okOf (getRouteGen false false false sat (treeFor R m) path Ctx.fresh) =
       (refRoute sat R m (cutAny path)).map fun r =>
         (leafOf r, pushAll Ctx.fresh ((routeMatch sat r (cutAny path)).getD [])) := by
   have hNP : ∀ r ∈ R, NormalPat r.text r.pat := fun r hr => (hR r hr).1
@@ -360,7 +368,7 @@ theorem getRoute_ref (sat : Nat → Bytes → Bool) (R : List Route) (hR : Norma
     subst hroot
     have hcut : cutAny ['/'] = ⟨[], false⟩ := by simp [cutAny]
     rw [hcut]
-    have hget : getRouteGen false false sat ⟨nodesOf (entriesOf R m), staticsOf R m⟩ ['/'] Ctx.fresh =
+    have hget : getRouteGen false false false sat ⟨nodesOf (entriesOf R m), staticsOf R m⟩ ['/'] Ctx.fresh =
         ((getK (nodesOf (entriesOf R m)) []).leaf, Ctx.fresh) := by simp [getRouteGen]
     rw [hget]
     have hcands : cands sat R m ⟨[], false⟩ = R.filter fun r => r.method = m && r.pat.isEmpty := by
@@ -475,11 +483,12 @@ theorem getRoute_ref (sat : Nat → Bytes → Bool) (R : List Route) (hR : Norma
             refine ⟨hr, ⟨hrm, ?_⟩, htx⟩
             simp [inTree, hrs, hrne]
           rw [hnone] at this; simp at this
-      have hget : getRouteGen false false sat ⟨nodesOf (entriesOf R m), staticsOf R m⟩ path Ctx.fresh =
-          walkGen false false sat (nodesOf (entriesOf R m)) (cutAny path).trail [] (Ctx.fresh, []) (cutAny path).segs := by
+      have hget : okOf (getRouteGen false false false sat ⟨nodesOf (entriesOf R m), staticsOf R m⟩ path Ctx.fresh) =
+          walkGen false false false sat (nodesOf (entriesOf R m)) (cutAny path).trail [] (Ctx.fresh, []) (cutAny path).segs := by
         simp only [getRouteGen, hnr, if_false, hstat, hparse]
+        exact okOf_match _ _
       rw [hget]
-      exact walk_ref sat R hOK hD m (cutAny path) hsegs hsh hS hC
+      exact walk_ref sat R hOK hD m (cutAny path) hsegs hsh hOw
     · obtain ⟨R1, s, R2, hsplit, hs, hR2⟩ := last_sat _ R hnone
       simp only [Bool.and_eq_true, decide_eq_true_eq, Bool.not_eq_true'] at hs
       obtain ⟨⟨hsm, hst⟩, htx⟩ := hs
@@ -498,7 +507,7 @@ theorem getRoute_ref (sat : Nat → Bytes → Bool) (R : List Route) (hR : Norma
           · simp only [Bool.and_eq_true, decide_eq_true_eq, Bool.not_eq_true'] at hc'
             simp [hc'.2.1, hc'.2.2, ht] at this
           · simp [ht]
-      have hget : getRouteGen false false sat ⟨nodesOf (entriesOf R m), staticsOf R m⟩ path Ctx.fresh =
+      have hget : getRouteGen false false false sat ⟨nodesOf (entriesOf R m), staticsOf R m⟩ path Ctx.fresh =
           (some (leafOf s), Ctx.fresh) := by
         simp only [getRouteGen, hnr, if_false, hstat]
       rw [hget]
@@ -534,22 +543,24 @@ theorem getRoute_ref (sat : Nat → Bytes → Bool) (R : List Route) (hR : Norma
       simp [okOf, href, hsrm, pushAll]
 
 
-/-- **Soundness of `getRoute`, without any guard**: the leaf returned belongs to a registered route of
-the tree whose pattern matches the path. -/
+/-- **Soundness of `getRoute`, without any guard** (pattern, constraints, bindings): the leaf returned
+belongs to a registered route of the tree that matches the path, constraints included, and the context
+holds exactly that route's own bindings. -/
 theorem getRoute_sound (sat : Nat → Bytes → Bool) (R : List Route) (hR : NormalR R) (m : Bytes) (path : Bytes)
     (hp : path.head? = some '/') (lf : Leaf) (ctx : Ctx)
-    (h : okOf (getRouteGen false false sat (treeFor R m) path Ctx.fresh) = some (lf, ctx)) :
+    (h : okOf (getRouteGen false false false sat (treeFor R m) path Ctx.fresh) = some (lf, ctx)) :
     ∃ r ∈ R, r.method = m ∧ lf = leafOf r ∧
-      (matchPat (cutAny path).trail r.pat (cutAny path).segs).isSome = true := by
+      ∃ b, routeMatch sat r (cutAny path) = some b ∧ ctx = pushAll Ctx.fresh b := by
   have hNP : ∀ r ∈ R, NormalPat r.text r.pat := fun r hr => (hR r hr).1
   have hOK : ∀ r ∈ R, patOK r.pat := fun r hr => normal_patOK _ _ (hNP r hr)
+  have hD : ∀ r ∈ R, distinct (declNames r.pat) = true := fun r hr => (hNP r hr).dist
   have hpne : path ≠ [] := by intro e; rw [e] at hp; simp at hp
   rw [treeFor_char R hNP m] at h
   by_cases hroot : path = ['/']
   · subst hroot
     have hcut : cutAny ['/'] = ⟨[], false⟩ := by simp [cutAny]
     rw [hcut]
-    have hget : getRouteGen false false sat ⟨nodesOf (entriesOf R m), staticsOf R m⟩ ['/'] Ctx.fresh =
+    have hget : getRouteGen false false false sat ⟨nodesOf (entriesOf R m), staticsOf R m⟩ ['/'] Ctx.fresh =
         ((getK (nodesOf (entriesOf R m)) []).leaf, Ctx.fresh) := by simp [getRouteGen]
     rw [hget, nodesOf_leaf _ (entriesOf_ok R hOK m)] at h
     cases hl : lastSome (fun e : Entry => if strip e.pat [] = some [] then some e.lf else none) (entriesOf R m) with
@@ -561,7 +572,8 @@ theorem getRoute_sound (sat : Nat → Bytes → Bool) (R : List Route) (hR : Nor
       by_cases hpe : r.pat = []
       · simp only [hpe, if_true, Option.some.injEq] at hfe
         simp only [okOf, hl, Option.map_some, Option.some.injEq, Prod.mk.injEq] at h
-        refine ⟨r, hr, hrm, ?_, by rw [hpe]; rfl⟩
+        have hrmatch := routeMatch_static sat r (hR r hr).2 (by rw [hpe]; rfl) ⟨[], false⟩ (by rw [hpe]; rfl)
+        refine ⟨r, hr, hrm, ?_, [], hrmatch, by rw [← h.2]; rfl⟩
         rw [← h.1, ← hfe]; rfl
       · simp [hpe] at hfe
   · have hnr : ¬ (path = ['/'] ∨ path = []) := by intro h; rcases h with h | h <;> contradiction
@@ -569,7 +581,7 @@ theorem getRoute_sound (sat : Nat → Bytes → Bool) (R : List Route) (hR : Nor
     have hparse := parsePath_eq path hroot hpne
     cases hs : getStatic path (staticsOf R m) with
     | some lf' =>
-      have hget : getRouteGen false false sat ⟨nodesOf (entriesOf R m), staticsOf R m⟩ path Ctx.fresh =
+      have hget : getRouteGen false false false sat ⟨nodesOf (entriesOf R m), staticsOf R m⟩ path Ctx.fresh =
           (some lf', Ctx.fresh) := by simp only [getRouteGen, hnr, if_false, hs]
       rw [hget] at h
       simp only [okOf, Option.map_some, Option.some.injEq, Prod.mk.injEq] at h
@@ -587,16 +599,19 @@ theorem getRoute_sound (sat : Nat → Bytes → Bool) (R : List Route) (hR : Nor
       by_cases ht : r.text = path
       · simp only [ht, if_true, Option.some.injEq] at hfr
         obtain ⟨hss, hsne⟩ := notInTree r hr'.2.2
-        refine ⟨r, hr'.1, hr'.2.1, by rw [← h.1, ← hfr], ?_⟩
-        exact (static_text_iff r (hNP r hr'.1) hss hsne path hp).mp ht
+        have hmatch := (static_text_iff r (hNP r hr'.1) hss hsne path hp).mp ht
+        have hrmatch := routeMatch_static sat r (hR r hr'.1).2 hss (cutAny path) hmatch
+        exact ⟨r, hr'.1, hr'.2.1, by rw [← h.1, ← hfr], [], hrmatch, by rw [← h.2]; rfl⟩
       · simp [ht] at hfr
     | none =>
-      have hget : getRouteGen false false sat ⟨nodesOf (entriesOf R m), staticsOf R m⟩ path Ctx.fresh =
-          walkGen false false sat (nodesOf (entriesOf R m)) (cutAny path).trail [] (Ctx.fresh, []) (cutAny path).segs := by
+      have hget : okOf (getRouteGen false false false sat ⟨nodesOf (entriesOf R m), staticsOf R m⟩ path Ctx.fresh) =
+          walkGen false false false sat (nodesOf (entriesOf R m)) (cutAny path).trail [] (Ctx.fresh, []) (cutAny path).segs := by
         simp only [getRouteGen, hnr, if_false, hs, hparse]
+        exact okOf_match _ _
       rw [hget] at h
-      obtain ⟨r, hr, hrm, _, hlf, hmatch⟩ := walk_sound sat R hOK m _ _ _ _ _ h
-      exact ⟨r, hr, hrm, hlf, hmatch⟩
+      obtain ⟨r, hr, hrm, _, b, hb, hres⟩ := walk_sound sat R hOK hD m _ _ h
+      simp only [Prod.mk.injEq] at hres
+      exact ⟨r, hr, hrm, hres.1, b, hb, hres.2⟩
 
 
 theorem lastSome_eq_none {α β} (f : α → Option β) (l : List α) (h : lastSome f l = none) : ∀ a ∈ l, f a = none := by
@@ -614,25 +629,29 @@ theorem lastSome_eq_none {α β} (f : α → Option β) (l : List α) (h : lastS
       · simpa using h
       · exact ih hr a ha
 
-/-- **Priority of `getRoute`, without any guard**: no registered route of the method whose pattern matches
-the path beats the route `getRoute` returns. -/
+/-- **Priority of `getRoute`, without any guard**: no registered route of the method that matches the path with
+its constraints satisfied, and that was not replaced by a later route of its shape, beats the route `getRoute`
+returns. -/
 theorem getRoute_max (sat : Nat → Bytes → Bool) (R : List Route) (hR : NormalR R) (m : Bytes) (path : Bytes)
     (hp : path.head? = some '/') (lf : Leaf) (ctx : Ctx)
-    (h : okOf (getRouteGen false false sat (treeFor R m) path Ctx.fresh) = some (lf, ctx)) :
+    (h : okOf (getRouteGen false false false sat (treeFor R m) path Ctx.fresh) = some (lf, ctx)) :
     ∃ r ∈ R, r.method = m ∧ lf = leafOf r ∧
-      ∀ r' ∈ R, r'.method = m → (matchPat (cutAny path).trail r'.pat (cutAny path).segs).isSome = true →
+      ∀ r' ∈ R, r'.method = m → (routeMatch sat r' (cutAny path)).isSome = true →
+        ((laterThan r' R).any fun r1 => r1.method = m && shapeEq r1.pat r'.pat) = false →
         better r'.pat r.pat = false := by
   have hNP : ∀ r ∈ R, NormalPat r.text r.pat := fun r hr => (hR r hr).1
   have hOK : ∀ r ∈ R, patOK r.pat := fun r hr => normal_patOK _ _ (hNP r hr)
   have hpne : path ≠ [] := by intro e; rw [e] at hp; simp at hp
   by_cases hroot : path = ['/']
   · -- the root: every matching pattern is the root pattern
-    obtain ⟨r, hr, hrm, hlf, hmatch⟩ := getRoute_sound sat R hR m path hp lf ctx h
+    obtain ⟨r, hr, hrm, hlf, b, hb, _⟩ := getRoute_sound sat R hR m path hp lf ctx h
+    have hmatch := routeMatch_isSome_match sat r _ (by rw [hb]; rfl)
     refine ⟨r, hr, hrm, hlf, ?_⟩
     subst hroot
     have hcut : cutAny ['/'] = ⟨[], false⟩ := by simp [cutAny]
     rw [hcut] at hmatch ⊢
-    intro r' _ _ hm'
+    intro r' _ _ hm'0 _
+    have hm' := routeMatch_isSome_match sat r' _ hm'0
     obtain ⟨h1, _⟩ := matchPat_nil_segs _ _ hm'
     obtain ⟨h2, _⟩ := matchPat_nil_segs _ _ hmatch
     rw [h1, h2]; rfl
@@ -643,7 +662,7 @@ theorem getRoute_max (sat : Nat → Bytes → Bool) (R : List Route) (hR : Norma
     cases hs : getStatic path (staticsOf R m) with
     | some lf' =>
       -- a parameter-free route: nothing beats it
-      have hget : getRouteGen false false sat ⟨nodesOf (entriesOf R m), staticsOf R m⟩ path Ctx.fresh =
+      have hget : getRouteGen false false false sat ⟨nodesOf (entriesOf R m), staticsOf R m⟩ path Ctx.fresh =
           (some lf', Ctx.fresh) := by simp only [getRouteGen, hnr, if_false, hs]
       rw [hget] at h
       simp only [okOf, Option.map_some, Option.some.injEq, Prod.mk.injEq] at h
@@ -662,19 +681,23 @@ theorem getRoute_max (sat : Nat → Bytes → Bool) (R : List Route) (hR : Norma
       · simp only [ht, if_true, Option.some.injEq] at hfr
         obtain ⟨hss, _⟩ := notInTree r hr'.2.2
         refine ⟨r, hr'.1, hr'.2.1, by rw [← h.1, ← hfr], ?_⟩
-        intro r' _ _ _
+        intro r' _ _ _ _
         exact better_static_left _ _ hss
       · simp [ht] at hfr
     | none =>
-      have hget : getRouteGen false false sat ⟨nodesOf (entriesOf R m), staticsOf R m⟩ path Ctx.fresh =
-          walkGen false false sat (nodesOf (entriesOf R m)) (cutAny path).trail [] (Ctx.fresh, []) (cutAny path).segs := by
+      have hget : okOf (getRouteGen false false false sat ⟨nodesOf (entriesOf R m), staticsOf R m⟩ path Ctx.fresh) =
+          walkGen false false false sat (nodesOf (entriesOf R m)) (cutAny path).trail [] (Ctx.fresh, []) (cutAny path).segs := by
         simp only [getRouteGen, hnr, if_false, hs, hparse]
+        exact okOf_match _ _
       rw [hget] at h
-      obtain ⟨r, hr, hrm, _, hlf, _, hmax⟩ := walk_sound_max sat R hOK m _ _ _ _ _ h
-      refine ⟨r, hr, hrm, hlf, ?_⟩
-      intro r' hr' hrm' hm'
+      have hD : ∀ r ∈ R, distinct (declNames r.pat) = true := fun r hr => (hNP r hr).dist
+      obtain ⟨r, hr, hrm, _, ⟨b, _, hres⟩, hmax⟩ := walk_sound_prio sat R hOK hD m _ _ h
+      simp only [Prod.mk.injEq] at hres
+      refine ⟨r, hr, hrm, hres.1, ?_⟩
+      intro r' hr' hrm' hm'0 hlast'
+      have hm' := routeMatch_isSome_match sat r' _ hm'0
       by_cases hrt' : inTree r' = true
-      · exact hmax r' hr' hrm' hrt' hm'
+      · exact hmax r' hr' hrm' hrt' hm'0 hlast'
       · -- a parameter-free route that matches would have been found in `staticPaths`
         exfalso
         have hrt'' : inTree r' = false := by simpa using hrt'
